@@ -348,6 +348,91 @@ def reset_tables(t_axis):
                 reset_mode=int(v['mode']), reset_answer=int(v['answer']))
 
 
+# ---------------------------------------------------------------------------
+# MasterAxisStatus.update_status (limit / rate warning bits) and SlaveAxisStatus.update_status
+
+WARN_SETTER_SHAPE = """if not isinstance(value, bool):
+    raise ValueError('Provide a boolean!')
+warnings = list(self.warnings)
+warnings[@k@] = str(int(value))
+self.status[6:10] = utils.binary_to_bytes(''.join(warnings)[::-1])""".splitlines()
+WARN_WORD_SHAPE = ["return utils.bytes_to_binary(self.status[6:10])[::-1]"]
+
+UPDATE_STATUS_SHAPE = """if self.stow_pos:
+    self.stowPosOk = float(self.p_Ist) / 1000000 in self.stow_pos
+if self.p_Ist == int(round(self.min_pos * 1000000)):
+    self.Pre_Limit_Dn = True
+    self.Fin_Limit_Dn = False
+elif self.p_Ist < int(round(self.min_pos * 1000000)):
+    self.Pre_Limit_Dn = True
+    self.Fin_Limit_Dn = True
+else:
+    self.Pre_Limit_Dn = False
+    self.Fin_Limit_Dn = False
+if self.p_Ist == int(round(self.max_pos * 1000000)):
+    self.Pre_Limit_Up = True
+    self.Fin_Limit_Up = False
+elif self.p_Ist > int(round(self.max_pos * 1000000)):
+    self.Pre_Limit_Up = True
+    self.Fin_Limit_Up = True
+else:
+    self.Pre_Limit_Up = False
+    self.Fin_Limit_Up = False
+if abs(self.v_Ist) > int(round(self.max_velocity * 1000000)):
+    self.Rate_Limit = True
+else:
+    self.Rate_Limit = False""".splitlines()
+
+SLAVE_UPDATE_SHAPE = """if self.master.axis_state == @st_active@:
+    brakes_open = []
+    brakes_open += [True for __ in range(len(self.motor_status))]
+    brakes_open += [False for __ in range(16 - len(self.motor_status))]
+    self.brakes_open = brakes_open
+else:
+    self.brakes_open = [False for __ in range(16)]""".splitlines()
+
+UPDATE_BITS = ['Pre_Limit_Up', 'Pre_Limit_Dn', 'Fin_Limit_Up', 'Fin_Limit_Dn', 'Rate_Limit']
+DEFAULT_UPDATE_BITS = dict(Pre_Limit_Up=19, Pre_Limit_Dn=20, Fin_Limit_Up=21, Fin_Limit_Dn=22, Rate_Limit=23)
+
+
+def status_tables(t_axis, t_init):
+    """-> dict(update_bits={name: bit of the warning word}, cw_motors=n)"""
+    props = _props(t_axis, 'SimpleAxisStatus')
+    if 'warnings' not in props or props['warnings'][1] is not None:
+        raise GenError('SimpleAxisStatus.warnings: not a read-only property')
+    _EXPECT_STRICT('SimpleAxisStatus.warnings', _body_lines(props['warnings'][0]), WARN_WORD_SHAPE)
+    from simulators.acu.axis_status import SimpleAxisStatus
+    bits = {}
+    for name in UPDATE_BITS:
+        if name not in props or props[name][1] is None:
+            raise GenError('SimpleAxisStatus.%s: no such settable property' % name)
+        k = _EXPECT_STRICT('SimpleAxisStatus.%s (setter)' % name, _body_lines(props[name][1]), WARN_SETTER_SHAPE)['k']
+        if not k.isdigit() or not 0 <= int(k) < 32:
+            raise GenError('SimpleAxisStatus.%s: bit %s' % (name, k))
+        # the getter reads the bit the setter writes (checked on a scratch object)
+        probe = SimpleAxisStatus()
+        setattr(probe, name, True)
+        if getattr(probe, name) is not True or probe.warnings != '0' * int(k) + '1' + '0' * (31 - int(k)):
+            raise GenError('SimpleAxisStatus.%s: getter and setter disagree' % name)
+        bits[name] = int(k)
+    if len(set(bits.values())) != len(bits):
+        raise GenError('two warning flags share a bit: %r' % (bits,))
+    _EXPECT_STRICT('MasterAxisStatus.update_status', _body_lines(_fn(t_axis, 'MasterAxisStatus', 'update_status')),
+                   UPDATE_STATUS_SHAPE)
+    v = _EXPECT_STRICT('SlaveAxisStatus.update_status', _body_lines(_fn(t_axis, 'SlaveAxisStatus', 'update_status')),
+                       SLAVE_UPDATE_SHAPE)
+    shadow = _class_names(t_axis, 'MasterAxisStatus') & (set(UPDATE_BITS) | {'warnings'})
+    if shadow:
+        raise GenError('MasterAxisStatus overrides %r' % (sorted(shadow),))
+    init = _fn(t_init, 'System', '__init__')
+    cw = [ast.unparse(st.value) for st in ast.walk(init)
+          if isinstance(st, ast.Assign) and len(st.targets) == 1 and ast.unparse(st.targets[0]) == 'self.CW']
+    m = re.fullmatch(r'SlaveAxisStatus\(n_motors=(\d+), master=self\.AZ\)', cw[0]) if len(cw) == 1 else None
+    if not m or not 0 < int(m.group(1)) <= 16:
+        raise GenError('System.__init__: unexpected construction of self.CW: %r' % (cw,))
+    return dict(update_bits=bits, cw_motors=int(m.group(1)), cw_active_state=int(v['st_active']))
+
+
 DEFAULT_LITERALS = dict(n_flag=4, at_len=8, at_cnt=12, at_num=16, min_len=20, cmd_len=26, pt_head=42,
                         pt_entry=20, st_inactive=0, st_active=3, slew_limit=1, stow_rate_factor=0.5)
 
@@ -431,6 +516,12 @@ def tables(repo, strict=True):
             raise
         T.update(error_flags=list(DEFAULT_ERROR_FLAGS), reset_flags=list(DEFAULT_ERROR_FLAGS),
                  reset_mode=15, reset_answer=1)
+    try:
+        T.update(status_tables(t_axis, t_init))
+    except GenError:
+        if _expect is _EXPECT_STRICT:
+            raise
+        T.update(update_bits=dict(DEFAULT_UPDATE_BITS), cw_motors=1, cw_active_state=3)
     for name in ('AZ', 'EL'):
         kw = axis_ctor_args(t_init, name)
         if set(kw) - {'n_motors', 'max_rates', 'op_range', 'start_pos', 'stow_pos'}:
@@ -494,6 +585,15 @@ def coq_text(T):
          'Definition reset_clears : list Z := %s.' % zlist([k for _, k in T['reset_flags']]),
          'Definition reset_mode : Z := %d.' % T['reset_mode'],
          'Definition reset_answer : Z := %d.' % T['reset_answer'],
+         '(* bits of the warning word status[6:10] written by MasterAxisStatus.update_status *)',
+         'Definition bit_Pre_Limit_Up : Z := %d.' % T['update_bits']['Pre_Limit_Up'],
+         'Definition bit_Pre_Limit_Dn : Z := %d.' % T['update_bits']['Pre_Limit_Dn'],
+         'Definition bit_Fin_Limit_Up : Z := %d.' % T['update_bits']['Fin_Limit_Up'],
+         'Definition bit_Fin_Limit_Dn : Z := %d.' % T['update_bits']['Fin_Limit_Dn'],
+         'Definition bit_Rate_Limit : Z := %d.' % T['update_bits']['Rate_Limit'],
+         '(* self.CW = SlaveAxisStatus(n_motors=.., master=self.AZ); brakes open iff master.axis_state == .. *)',
+         'Definition CW_n_motors : Z := %d.' % T['cw_motors'],
+         'Definition CW_master_active : Z := %d.' % T['cw_active_state'],
          '']
     for name in ('AZ', 'EL'):
         c = T[name]
